@@ -1,6 +1,6 @@
 (* C20 — Configuration precedence: command line over config file over defaults; userdata.
    Statements only; proofs are in theories/ConfigProofs.v and theories/UserDataProofs.v. *)
-From BV Require Import Base UStr ConfigTypes UserData Config ConfigProofs ConfigTagsProofs UserDataProofs.
+From BV Require Import Base UStr ConfigTypes UserData Config ConfigProofs ConfigTagsProofs UserDataProofs ConfigOrder.
 From BVGen Require Import ConfigTables.
 
 (* ---- facts about the option tables generated from the code (decided by evaluation) ---- *)
@@ -85,6 +85,20 @@ Theorem files_are_read_in_search_order :
                 defs = merged class_defaults datas.
 Proof. exact load_configuration_spec. Qed.
 Print Assumptions files_are_read_in_search_order.
+
+(* which configuration file is "the" configuration file when several assign an option: the search order generated from
+   config_filenames() reads every file of the home directory before every file of the current directory (so the
+   per-project file overrides, whatever the two are called), and looks in both places *)
+Theorem project_configuration_files_override_the_home_directory :
+  home_then_project false file_order = true.
+Proof. exact project_files_are_read_after_home_files. Qed.
+Print Assumptions project_configuration_files_override_the_home_directory.
+
+Theorem after_a_project_file_only_project_files_are_read :
+  forall l1 n k l2 b, home_then_project b (l1 ++ (false, n, k) :: l2) = true ->
+    forall e, In e l2 -> fst (fst e) = false.
+Proof. exact home_then_project_spec. Qed.
+Print Assumptions after_a_project_file_only_project_files_are_read.
 
 (* ---- list-valued options ---- *)
 Theorem append_options_keep_file_order_then_command_line_order :
